@@ -13,11 +13,16 @@ Scenario = list of operations (tokens, all numbers hex):
                                                  every failure it delivers is observed
   :s <n> <op>                                    the operation is made on the named scope mock("s<n>") instead of mock()
   obj: ~ = no onObject at all; 0 = onObject(NULLPTR), an expectation on / a call on the null object; other = that address
-A RUN of several tests (scenario starts with :T):  (:T step*)+   step ::= <op> (not :post) | :ok | :bad
+A RUN of several tests (scenario starts with :T):  (:T step* [:D tdstep*])+   step ::= <op> (not :post) | :ok | :bad
+                                                 tdstep ::= [:s <n>] :chk | [:s <n>] :clr   -- the TEARDOWN of the test: runs after the
+                                                 body whether or not the body was left at a failure, with the same default reporter
+                                                 (which does not fail a test that has already failed); then the plugin's post action
                                                  each :T is one test of a private TestRegistry with the real MockSupportPlugin installed,
                                                  run by runAllTests with ONE TestResult; :ok / :bad = a check of the test's own that
                                                  passes / fails (FAIL leaves the test); mock failures go to the library's default
                                                  reporter (fails the current test and leaves it); the end-of-test check is the plugin's
+Observation of a run with a :D section: :runt n (<own> <count> nTd (<index of the teardown operation> :kind a b nUnf .. nFul ..)* <obs>)*
+                                                 nTd = the failures delivered while the teardown ran
 Observation of a run: :run n (<own 0|1> <TestResult::getFailureCount() when the test ended> <observation as below, fail index = index
                                                  among the mock operations of the body, nPost = what the plugin's check delivered>)*
   value ::= :b 0|1 | :i <ty 0..5> <z> | :s $bytes | :p <addr>
@@ -63,12 +68,21 @@ RULE = ("expectation sets of 1-6 expectations over 1-3 function names, 0-3 param
         "failed by the plugin in each way, fails on its own), the later test on the same or other function names, optionally a passing "
         "test in front or a test in between; a test cut by a failing check at every position followed by the complete test; bare "
         "failing test in front of every kind; empty tests; random runs. "
+        "Tests with a TEARDOWN section (checkExpectations / clear on mock() or a scope, 6 shapes incl. the usual check-then-clear, clear "
+        "first, check twice, a single scope's check in front) under the default reporter: bodies that deviate TWICE -- a deviation only a "
+        "check diagnoses (strict: one / two calls out of order, out of order plus unfulfilled; unfulfilled expectation; incomplete last "
+        "call) in scope A x a deviation that fails at the call (unexpected call, surplus call, wrong value, unknown / extra parameter, "
+        "wrong object, unknown output parameter) or the test's own failing check or a failing explicit check, in scope B, A and B over "
+        "mock() and two named scopes, same and different -- the test must fail exactly once; every kind of body (passing, unfulfilled, "
+        "failing call, out of order, incomplete, surplus, two incomplete scopes) x own failing check at any position x every teardown "
+        "shape, where the teardown's check is the scenario's final check; such tests in runs in front of / behind tests without teardown. "
         "non-trivial = at least one expectation and one actual call")
 ASSUMPTIONS = ["LP64 data model", "function and parameter names are distinct non-empty strings without special characters",
                "no custom types / comparators / copiers (..OfType), tracing off, scopes one level deep (mock(\"name\"))",
                "output data of at most 8 bytes into caller buffers of 8 bytes",
                "runs: tests of one private TestRegistry run in the current process by TestRegistry::runAllTests, MockSupportPlugin the only "
-               "plugin, a test's own check fails through FAIL (the test is left), no explicit :post inside a test of a run"]
+               "plugin, a test's own check fails through FAIL (the test is left), no explicit :post inside a test of a run",
+               "teardown of a test: only mock().checkExpectations() / mock().clear() on mock() or a named scope (no own checks, no calls)"]
 
 VALUES = [":b 0", ":b 1", ":i 0 1", ":i 1 1", ":i 0 2", ":i 2 -1", ":i 3 ffffffffffffffff", ":i 4 -8000000000000000", ":i 5 2",
           ":s " + tb(b"a"), ":s " + tb(b"b"), ":s " + tb(b""), ":p 1000", ":p 1008", ":i 0 -1"]
@@ -763,6 +777,145 @@ def gen_runs(rng, tier, out):
                             for _ in range(n)]))
 
 
+TD_SHAPES = [[":chk", ":clr"], [":chk", ":clr"], [":chk"], [":clr", ":chk"], [":chk", ":chk", ":clr"], [":clr"]]
+IMMEDIATE = ["unexpected", "surplus", "wrong_value", "wrong_name", "extra_param", "wrong_obj", "no_obj_expected_name"]
+LATE = ["ooo1", "ooo2", "unfulfilled", "incomplete", "ooo_unfulfilled"]
+
+
+def immediate_fail(rng, kind, f):
+    """-> (expectation tokens, call tokens): the LAST call deviates at the call (the default reporter leaves the body there)"""
+    v, v2 = VALUES[2], VALUES[4]
+    want = rng.random() < 0.3
+    if kind == "unexpected":
+        return [], [call_tok((7, [], want))]
+    if kind == "surplus":
+        return [exp_tok((1, f, [], None, False))], [call_tok((f, [], False)), call_tok((f, [], want))]
+    if kind == "wrong_value":
+        return [exp_tok((1, f, [(0, v)], None, False))], [call_tok((f, [(0, v2)], want))]
+    if kind == "wrong_name":
+        return [exp_tok((1, f, [(0, v)], None, False))], [call_tok((f, [(1, v)], want))]
+    if kind == "extra_param":
+        return [exp_tok((1, f, [(0, v)], None, False))], [call_tok((f, [(0, v), (2, v2)], want))]
+    if kind == "wrong_obj":
+        return [expx_tok((1, f, [], [], rng.choice([0x1000, 0]), None, False))], [callx_tok((f, [("obj", 0x2000)], want))]
+    return [exp_tok((1, f, [], None, False))], [callx_tok((f, [("out", 0, filler(rng))], want))]      # unexpected output parameter name
+
+
+def late_deviation(rng, kind, f):
+    """-> (pre tokens, expectation tokens, call tokens): every call goes through; the deviation is only diagnosed by checkExpectations"""
+    v, v2 = VALUES[2], VALUES[4]
+    if kind in ("ooo1", "ooo2", "ooo_unfulfilled"):
+        g = f + 1 if rng.random() < 0.6 else f
+        exps = [(1, f, [(0, v)], None, False), (1, g, [(0, v2)], None, False)]
+        calls = [(g, [(0, v2)], False)] + ([(f, [(0, v)], False)] if kind == "ooo2" else [])
+        if kind == "ooo_unfulfilled":
+            exps.append((1, f + 2, [], None, False))
+        return [":strict"], [exp_tok(e) for e in exps], [call_tok(c) for c in calls]
+    if kind == "unfulfilled":
+        exps = [(1, f, [], None, False), (rng.choice([1, 2]), f + 1, [(0, v)], None, False)]
+        return [], [exp_tok(e) for e in exps], [call_tok((f, [], False))] if rng.random() < 0.7 else []
+    # incomplete: the last call lacks a parameter and nobody asks for its value
+    exps = [(1, f, [(0, v), (1, v2)], None, False)]
+    return [], [exp_tok(e) for e in exps], [call_tok((f, [(0, v)], False))]
+
+
+def td_tok(rng, scopes, shape=None):
+    """a teardown: checkExpectations / clear on mock(), optionally a check of a single scope in front / instead"""
+    shape = list(shape if shape is not None else rng.choice(TD_SHAPES))
+    named = [sc for sc in scopes if sc]
+    r = rng.random()
+    if named and r < 0.35:
+        shape = [in_scope(rng.choice(named), ":chk")] + shape
+    elif named and r < 0.5:
+        shape = [in_scope(sc, ":chk") for sc in named] + ([":clr"] if rng.random() < 0.5 else [])
+    elif named and r < 0.6:
+        shape = [in_scope(named[0], ":clr")] + shape
+    return [":D"] + shape
+
+
+def two_deviations(rng, late, imm, sa, sb, lead_ok=False):
+    """the body of a test that deviates twice: a deviation only a check diagnoses (scope sa), then one that fails at the call (scope sb;
+    imm = "own": the test's own check fails instead; imm = "chk": an explicit check in the body fails on a scope's incomplete call)"""
+    pre, le, lc = late_deviation(rng, late, 0)
+    body = [in_scope(sa, t) for t in pre + le]
+    if imm in ("own", "chk"):
+        body += [in_scope(sa, t) for t in lc]
+        body.append(":bad" if imm == "own" else in_scope(sb, ":chk"))
+        if imm == "chk" and rng.random() < 0.5:
+            body.append(call_tok((9, [], False)))
+        return body
+    ie, ic = immediate_fail(rng, imm, 4)
+    ie = [in_scope(sb, t) for t in ie]
+    ic = [in_scope(sb, t) for t in ic]
+    lc = [in_scope(sa, t) for t in lc]
+    if sa == sb and pre:          # strict order holds for the whole scope: the failing call's expectation comes last
+        body += ie + lc + ic
+    else:
+        calls = interleave(rng, [lc, ic[:-1]]) if rng.random() < 0.5 else lc + ic[:-1]
+        body = (ie + body if rng.random() < 0.5 else body + ie) + calls + [ic[-1]]
+    if rng.random() < 0.4:
+        body.append(call_tok((0, [], False)))       # never reached
+    if lead_ok:
+        body.insert(0, ":ok")
+    return body
+
+
+def gen_teardown(rng, tier, out):
+    """Tests with a teardown section under the default reporter.  (a) the body deviates twice (late deviation x immediate failure /
+    own failing check / failing explicit check, same or different scopes) and the teardown checks: exactly one failure; (b) the body
+    passes or deviates in one way only a check can diagnose and the teardown makes that check (the usual idiom: judged like the single
+    scenario); (c) such tests inside runs, in front of / behind tests without teardown."""
+    reps = 1 if tier == "quick" else 25
+    scope_pairs = [(0, 0), (0, 1), (1, 0), (1, 1), (1, 2), (2, 1)]
+    for _ in range(reps):
+        for late in LATE:
+            for imm in IMMEDIATE + ["own", "chk"]:
+                for (sa, sb) in scope_pairs:
+                    if tier == "quick" and (sa, sb) not in ((0, 0), (1, 2), (0, 1)) and rng.random() < 0.6:
+                        continue
+                    body = two_deviations(rng, late, imm, sa, sb, lead_ok=rng.random() < 0.2)
+                    td = td_tok(rng, {sa, sb})
+                    tests = [body + td]
+                    r = rng.random()
+                    if r < 0.25:
+                        tests.append(with_checks(rng, test_body(rng, rng.choice(BODY_KINDS)), None))           # a plain test behind it
+                    elif r < 0.4:
+                        tests.insert(0, with_checks(rng, test_body(rng, "pass"), None) + [":D", ":chk", ":clr"])
+                    out.append(run_tok(tests))
+        # the usual idiom on every kind of body: the teardown's check is the scenario's final check
+        for kind in BODY_KINDS:
+            for bad in (None, None, "first", "mid", "last"):
+                for shape in TD_SHAPES:
+                    if tier == "quick" and rng.random() < 0.5:
+                        continue
+                    t1 = with_checks(rng, test_body(rng, kind), bad) + td_tok(rng, {0}, shape)
+                    tests = [t1]
+                    if rng.random() < 0.4:
+                        k2 = rng.choice(BODY_KINDS)
+                        t2 = with_checks(rng, test_body(rng, k2, 0 if rng.random() < 0.6 else 4), rng.choice([None, None, "mid"]))
+                        tests.append(t2 + (td_tok(rng, {0, 1, 2}) if rng.random() < 0.5 else []))
+                    out.append(run_tok(tests))
+    # scopes: the body's mock operations on scopes, the teardown checks single scopes and / or mock()
+    for _ in range(60 if tier == "quick" else 3000):
+        kind = rng.choice(BODY_KINDS)
+        sc = rng.choice([1, 2])
+        t = with_checks(rng, test_body(rng, kind, 0, sc), rng.choice([None, None, None, "mid", "last"]))
+        out.append(run_tok([t + td_tok(rng, {sc, rng.choice([0, 1, 2])})]))
+    # random runs of tests with and without teardown
+    for _ in range(60 if tier == "quick" else 3000):
+        tests = []
+        for _ in range(rng.choice([2, 3, 4])):
+            r = rng.random()
+            if r < 0.35:
+                t = two_deviations(rng, rng.choice(LATE), rng.choice(IMMEDIATE + ["own", "chk"]), rng.choice([0, 0, 1]), rng.choice([0, 0, 1, 2]))
+            else:
+                t = with_checks(rng, test_body(rng, rng.choice(BODY_KINDS)), rng.choice([None, None, None, "first", "mid", "last"]))
+            tests.append(t + (td_tok(rng, {0, 1, 2}) if rng.random() < 0.7 else []))
+        if not any(":D" in t for t in tests):
+            tests[0] = tests[0] + [":D", ":chk", ":clr"]
+        out.append(run_tok(tests))
+
+
 def generate(tier, rng):
     out = []
     nsets = 170 if tier == "quick" else 3500
@@ -816,6 +969,7 @@ def generate(tier, rng):
     gen_ign_outs(rng, tier, out)
     gen_null_object(rng, tier, out)
     gen_runs(rng, tier, out)
+    gen_teardown(rng, tier, out)
     return out
 
 
@@ -843,11 +997,20 @@ def split_run(s):
 
 
 def parse_run(s):
-    return [parse_ops(t) for t in split_run(s)]
+    """-> per test (body operations, teardown operations or None when the test has no :D section)"""
+    res = []
+    for t in split_run(s):
+        tk = toks(t)
+        if ":D" in tk:
+            k = tk.index(":D")
+            res.append((parse_ops(" ".join(tk[:k])), parse_ops(" ".join(tk[k + 1:]))))
+        else:
+            res.append((parse_ops(t), None))
+    return res
 
 
 def emit_run(tests):
-    return " ".join((":T " + emit_ops(t)).strip() for t in tests)
+    return " ".join((":T " + emit_ops(b) + ("" if td is None else " :D " + emit_ops(td))).strip().replace("  ", " ") for b, td in tests)
 
 
 def read_value(t, i):
@@ -858,7 +1021,7 @@ def read_value(t, i):
 
 def parse_ops(s):
     """(of a run: all its tests' steps in one list) -> list of (scope, op) with op = ("E", count, f, inputs, outs, obj, ret, ign) | ("C", f, items, want) | (":chk",) ..."""
-    t = [x for x in toks(s) if x != ":T"]
+    t = [x for x in toks(s) if x not in (":T", ":D")]
     i = 0
     ops = []
     while i < len(t):
@@ -971,6 +1134,13 @@ def classify(s):
         labs.append("tests=%d" % min(t.count(":T"), 5))
         if ":bad" in t:
             labs.append("own-check-fails")
+        if ":D" in t:
+            labs.append("teardown")
+            for tt in split_run(s):
+                tk = toks(tt)
+                if ":D" in tk:
+                    td = [x for x in tk[tk.index(":D") + 1:] if x in (":chk", ":clr")]
+                    labs.append("teardown=" + ("check-first" if td[:1] == [":chk"] else "clear-first" if td else "empty"))
         if ":obj" in t and any(o[0] == "E" and o[5] == 0 for _, o in parse_ops(s)):
             labs.append("null-object-expected")
         return labs
@@ -986,19 +1156,31 @@ def classify(s):
 
 
 def run_status(o):
-    """per test of a run's observation: own | mock | post=<n> | pass"""
+    """per test of a run's observation: own | mock | td=<n> | post=<n> | pass (with +td=<n> / +post=<n> when a failed test got more)"""
     ot = o.split()
     res = []
     try:
+        withtd = ot[0] == ":runt"
         n = int(ot[1], 16)
         i = 2
         for _ in range(n):
             own = ot[i] == "1"
             i += 2
+            ntd = 0
+            if withtd:
+                ntd = int(ot[i], 16)
+                i += 1
+                for _ in range(ntd):
+                    i = skip_fail(ot, i + 1)
             failed = ot[i] != "~"
             j, posts = skip_obs(ot, i)
             i = j
-            res.append("own" if own else "mock" if failed else ("post=%d" % posts if posts else "pass"))
+            st = "own" if own else "mock" if failed else ""
+            if ntd:
+                st += ("+" if st else "") + "td=%d" % ntd
+            if posts:
+                st += ("+" if st else "") + "post=%d" % posts
+            res.append(st or "pass")
     except Exception:
         res.append("?")
     return res
@@ -1032,7 +1214,7 @@ def skip_obs(ot, i):
 def signature(s, o):
     if is_run(s):
         st = run_status(o)
-        return "run %s%s" % ("own-check " if ":bad" in toks(s) else "", ",".join(sorted(set(st))))
+        return "run %s%s%s" % ("teardown " if ":D" in toks(s) else "", "own-check " if ":bad" in toks(s) else "", ",".join(sorted(set(st))))
     ot = o.split()
     kind = "pass" if ot and ot[0] == "~" else (ot[1] if len(ot) > 1 else "?")
     t = toks(s)
@@ -1062,13 +1244,26 @@ def shrink_run(s):
     for i in range(len(tests)):
         if len(tests) > 1:
             yield emit_run(tests[:i] + tests[i + 1:])
-    for i, t in enumerate(tests):
+    for i, (t, td) in enumerate(tests):
+        def rep(t2, td2):
+            return emit_run(tests[:i] + [(t2, td2)] + tests[i + 1:])
+        if td is not None:
+            if not any(d is not None for k, (_, d) in enumerate(tests) if k != i) or len(td) == 0:
+                pass
+            else:
+                yield rep(t, None)
+            for j in range(len(td)):
+                if len(td) > 1 or any(d is not None for k, (_, d) in enumerate(tests) if k != i):
+                    yield rep(t, td[:j] + td[j + 1:])
+            for j, (sc, o) in enumerate(td):
+                if sc:
+                    yield rep(t, td[:j] + [(0, o)] + td[j + 1:])
         if not t:
             continue
         for cand in shrink(emit_ops(t)):
-            yield emit_run(tests[:i] + [parse_ops(cand)] + tests[i + 1:])
+            yield rep(parse_ops(cand), td)
         if len(t) == 1:
-            yield emit_run(tests[:i] + [[]] + tests[i + 1:])
+            yield rep([], td)
 
 
 def shrink(s):
@@ -1107,7 +1302,9 @@ def shrink(s):
 LEVEL_TEXT = ("Machine-checked (Coq) theorems over an executable model of the mock matching machinery (expectation flags and counters, "
               "candidate pruning, call finalisation, output-parameter copying, end-of-test verdict through checkExpectations() and through "
               "MockSupportPlugin's recording reporter, failure selection; a run of several tests sharing one TestResult with the plugin "
-              "installed: body, hasFailed flag, post action, clear, the run's failure counter), tied to the real code by a differential run "
+              "installed: body, hasFailed flag, post action, clear, the run's failure counter; the teardown of a test under the default "
+              "reporter: the mock state a failing operation leaves behind, checkExpectations / clear with a reporter that drops the failure of "
+              "a test that has already failed), tied to the real code by a differential run "
               "of the extracted model against mock() on generated scenarios (all permutations + one mutation per position), with the "
               "extracted model-free spec evaluated on the implementation's observations.")
 LEVEL_NOTE = ("Trusted: Coq kernel, extraction, harness and generators. Modelled not verified: the C++ itself. Theorems cover canonical scenarios "
@@ -1119,7 +1316,12 @@ LEVEL_NOTE = ("Trusted: Coq kernel, extraction, harness and generators. Modelled
               "call hands back are those of one declared expectation of that function and scope (proved of the model for all states); "
               "a run of tests with the plugin installed: every test whose own checks pass is that single scenario on a new mock whatever "
               "the earlier tests did (the run's observation is the list of its tests' own observations, failure counter summed), a test "
-              "left at its own failing check fails exactly once, every failure is counted once; the null object is an object. "
+              "left at its own failing check fails exactly once, every failure is counted once; the null object is an object; "
+              "tests with a teardown under the default reporter: a test that failed in its body gets nothing from the teardown's checks nor "
+              "from the plugin (whatever the body left in mock()), a failure delivered in the teardown is the only one, the test with the "
+              "usual teardown (check first) is the scenario 'its operations, then checkExpectations()' and after a check that passed nothing "
+              "more fails; the reporter without the hasFailed() test is refuted. Teardowns of another shape (clear first, a scope's check "
+              "first): once-ness, counting and coherence only. "
               "Which expectation is consumed and the diagnoses under ignoreOtherParameters, object-less expectations called on an object, "
               "a parameter name or object passed twice, intermediate check/clear/expectedCallsLeft, enable/disable: model = implementation "
               "agreement only. Not modelled: custom comparators/copiers, tracing, nested scopes.")
